@@ -349,6 +349,8 @@ def c01_oracle(c, impl):
         return ['no spec answer']
     if st == 'PANIC':
         return ['NewFrameSet panicked']
+    if st == 'HANG':
+        return ['NewFrameSet (or an accessor of the parsed set) did not return within 30 s']
     if spec == 'ERR':
         if st != 'ERR':
             f.append('string outside the grammar (or zero step / number not fitting an int) was accepted: frames %s' % kv.get('frames', '?')[:80])
@@ -1390,7 +1392,7 @@ def c07_cases(rng, tier):
         ents = list(dict.fromkeys(ents))
         ents = [e for j, e in enumerate(ents) if e.split(':', 1)[1] not in [x.split(':', 1)[1] for x in ents[:j]]]
         k = rng.randrange(10)
-        padtok = ['#', '@' * w, '%0' + str(w) + 'd', '$F' + str(w), '<UDIM>', '%(UDIM)d', '@', '##'][rng.randrange(8)]
+        padtok = ['#', '@' * w, '%0' + str(w) + 'd', '$F' + str(w), '<UDIM>', '%(UDIM)d', '@', '##', '#@', '@#', '@@#', '@' * max(w - 4, 0) + '#'][rng.randrange(12)]
         if k < 6:
             mid, pw = padtok, None
         elif k == 6:
@@ -1637,6 +1639,8 @@ def c15_oracle(c, impl_line):
     st = impl_line.split(' ')[0]
     if st in ('PANIC', 'NOOUTPUT'):
         f.append('the call panicked / the driver died')
+    if st == 'HANG':
+        f.append('the call did not return within 30 s')
     if c['op'] == 'fs':
         kv = dict(t.split('=', 1) for t in impl_line.split(' ')[1:] if '=' in t)
         if (kv.get('isfr') == '1') != (st == 'OK'):
